@@ -49,10 +49,22 @@ FIRST.update({"C02-d": "analysis error", "C05-f": "analysis error", "C07-d": "fa
 for r_ in ("C01", "C02", "C05", "C07", "C08", "C20"):
     for x_ in "def":
         FIRST.setdefault(f"{r_}-{x_}", "silent")
+# third round (after the third seeding round): /tmp/benign3_out/CNN/{a,b,c} are stored as CNN-g, -h, -i
+FIRST.update({"C03-h": "check did not terminate (creation model: a bound-method alias was not followed and every script forked)",
+              "C04-g": "check did not terminate (same cause)", "C04-h": "analysis error (C15.R2)", "C04-i": "analysis error (C02.R1) + relocated known defect",
+              "C09-i": "analysis errors (C15.R2, C16.R3) + relocated known defect", "C11-h": "false alarm (C01.R2, C11.R3; C11.R7 through an interpreter gap)",
+              "C12-i": "false alarm (C14.R1)", "C14-h": "false alarm (C14.R1)", "C15-g": "analysis error", "C15-h": "analysis error",
+              "C15-i": "false alarm (C15.R2: len of a tracked slice was a fresh unknown)", "C16-g": "analysis error", "C17-i": "analysis error",
+              "C19-g": "false alarm (C10.R2, C19.R1, C19.R2)", "C19-i": "false alarm (C19.R3) + analysis error (C01.R4)"})
+for r_ in ("C03", "C04", "C06", "C09", "C11", "C12", "C14", "C15", "C16", "C17", "C18", "C19"):
+    for x_ in "ghi":
+        FIRST.setdefault(f"{r_}-{x_}", "silent")
 os.makedirs(DST, exist_ok=True)
-for p in sorted(glob.glob("/tmp/benign_out/C*/[abc]/patch.diff")) + sorted(glob.glob("/tmp/benign2_out/C*/[abc]/patch.diff")):
+for p in sorted(glob.glob("/tmp/benign_out/C*/[abc]/patch.diff")) + sorted(glob.glob("/tmp/benign2_out/C*/[abc]/patch.diff")) \
+        + sorted(glob.glob("/tmp/benign3_out/C*/[abc]/patch.diff")):
     src = os.path.dirname(p)
-    name = p.split("/")[3] + "-" + (p.split("/")[4] if "/benign_out/" in p else {"a": "d", "b": "e", "c": "f"}[p.split("/")[4]])
+    name = p.split("/")[3] + "-" + (p.split("/")[4] if "/benign_out/" in p else {"a": "d", "b": "e", "c": "f"}[p.split("/")[4]] if "/benign2_out/" in p
+                                    else {"a": "g", "b": "h", "c": "i"}[p.split("/")[4]])
     d = os.path.join(DST, name)
     if os.path.exists(os.path.join(d, "patch.diff")):
         continue       # already stored (possibly ported by hand to a later /repo HEAD): never overwritten
